@@ -22,7 +22,7 @@ const MAX: usize = usize::MAX;
 enum Op {
     Range((usize, usize), (usize, usize), String),
     Reverse(bool, bool, String),
-    Roundtrip,
+    Roundtrip(Option<(&'static str, &'static str)>),
 }
 
 fn ids(n: usize) -> Vec<u64> {
@@ -48,12 +48,19 @@ fn apply<T: 'static>(m: Box<dyn MatrixMut<T>>, op: &Op) -> Result<Box<dyn Matrix
                 _ => Box::new(MatrixReverse::from(m, reverse)),
             }
         }
-        Op::Roundtrip => {
+        Op::Roundtrip(None) => {
             // try on a reference first: with_names consumes its source
             if let Err(e) = TensorRefMatrix::from(&m) {
                 return Err(format!("err {}", show_shape(&e.shape())));
             }
             let t = TensorRefMatrix::from(m).ok().unwrap();
+            Box::new(MatrixRefTensor::from(t))
+        }
+        Op::Roundtrip(Some((n1, n2))) => {
+            if let Err(e) = TensorRefMatrix::with_names(&m, [*n1, *n2]) {
+                return Err(format!("err {}", show_shape(&e.shape())));
+            }
+            let t = TensorRefMatrix::with_names(m, [*n1, *n2]).ok().unwrap();
             Box::new(MatrixRefTensor::from(t))
         }
     })
@@ -387,21 +394,38 @@ macro_rules! with_cur_mut {
 #[derive(Clone, Copy, PartialEq)]
 enum LeafKind {
     RowMajor,
-    ColumnMajor,
+    /// a 2-dimensional tensor with the given shape seen as a matrix through `MatrixRefTensor`,
+    /// directly or (swapped) through a `TensorAccess` in the order second name, first name
+    Tensor([(&'static str, usize); 2], bool),
 }
 
 /// a column-major source: `MatrixRefTensor` over a `TensorAccess` in (row, column) order of a
 /// tensor stored in (column, row) order
 fn cm_leaf<T: 'static>(size: (usize, usize), data: Vec<T>) -> Box<dyn MatrixMut<T>> {
-    let t = Tensor::from([("c", size.1), ("r", size.0)], data);
-    Box::new(MatrixRefTensor::from(TensorAccess::from(t, ["r", "c"])))
+    make_leaf(LeafKind::Tensor([("c", size.1), ("r", size.0)], true), size, data)
 }
 
 fn make_leaf<T: 'static>(kind: LeafKind, size: (usize, usize), data: Vec<T>) -> Box<dyn MatrixMut<T>> {
     match kind {
         LeafKind::RowMajor => Box::new(Matrix::from_flat_row_major(size, data)),
-        LeafKind::ColumnMajor => cm_leaf(size, data),
+        LeafKind::Tensor(shape, false) => Box::new(MatrixRefTensor::from(Tensor::from(shape, data))),
+        LeafKind::Tensor(shape, true) => {
+            let t = Tensor::from(shape, data);
+            Box::new(MatrixRefTensor::from(TensorAccess::from(t, [shape[1].0, shape[0].0])))
+        }
     }
+}
+
+/// the element a leaf stores at offset `k`
+fn fill_data(fill: &str, n: usize) -> Vec<u64> {
+    (0..n as u64)
+        .map(|k| match fill {
+            "zero" => 0,
+            "const" => 7,
+            "parity" => k % 2,
+            _ => k,
+        })
+        .collect()
 }
 
 fn parse_range_pair(s: &str) -> (usize, usize) {
@@ -440,7 +464,7 @@ fn apply_leaf(m: Matrix<u64>, op: &Op) -> Result<Cur, String> {
                 _ => return apply_mut(Box::new(m), op),
             }
         }
-        Op::Roundtrip => return apply_mut(Box::new(m), op),
+        Op::Roundtrip(_) => return apply_mut(Box::new(m), op),
     })
 }
 
@@ -474,7 +498,7 @@ fn apply_mut(m: MDyn, op: &Op) -> Result<Cur, String> {
                 _ => Cur::Mut(apply(m, op)?),
             }
         }
-        Op::Roundtrip => Cur::Mut(apply(m, op)?),
+        Op::Roundtrip(_) => Cur::Mut(apply(m, op)?),
     })
 }
 
@@ -501,11 +525,17 @@ fn apply_ref(m: RDyn, op: &Op) -> Result<Cur, String> {
                 _ => Box::new(MatrixReverse::from(m, reverse)),
             }
         }
-        Op::Roundtrip => {
+        Op::Roundtrip(None) => {
             if let Err(e) = TensorRefMatrix::from(&m) {
                 return Err(format!("err {}", show_shape(&e.shape())));
             }
             Box::new(MatrixRefTensor::from(TensorRefMatrix::from(m).ok().unwrap()))
+        }
+        Op::Roundtrip(Some((n1, n2))) => {
+            if let Err(e) = TensorRefMatrix::with_names(&m, [*n1, *n2]) {
+                return Err(format!("err {}", show_shape(&e.shape())));
+            }
+            Box::new(MatrixRefTensor::from(TensorRefMatrix::with_names(m, [*n1, *n2]).ok().unwrap()))
         }
     }))
 }
@@ -643,6 +673,7 @@ fn scan_view<S: MatrixRef<u64>>(m: &S, via: &str) -> Option<Vec<u64>> {
 pub struct Runner {
     cur: Option<Cur>,
     leaf_kind: LeafKind,
+    fill: String,
     quad_display: Option<String>,
     live: Option<AnyLive>,
     leaf: (usize, usize),
@@ -665,6 +696,7 @@ impl Runner {
         Runner {
             cur: None,
             leaf_kind: LeafKind::RowMajor,
+            fill: "id".to_string(),
             quad_display: None,
             live: None,
             leaf: (0, 0),
@@ -742,15 +774,51 @@ impl Runner {
                     self.live = Some(any);
                     format!("ok {}", s)
                 }
-                "matrix" | "cmatrix" => {
+                "matrix" | "cmatrix" | "tmatrix" => {
+                    self.fill = opt_arg("fill", toks).unwrap_or("id").to_string();
+                    if toks[1] == "tmatrix" {
+                        let shape = parse_shape(toks[2]);
+                        let tshape = [shape[0], shape[1]];
+                        let swapped = opt_arg("order", toks) == Some("swapped");
+                        let (l1, l2) = (tshape[0].1, tshape[1].1);
+                        self.leaf = if swapped { (l2, l1) } else { (l1, l2) };
+                        self.leaf_kind = LeafKind::Tensor(tshape, swapped);
+                        let data = fill_data(&self.fill, l1 * l2);
+                        let res = catch(|| -> MDyn {
+                            match via.as_str() {
+                                // tensor → matrix conversions (row-major order is kept)
+                                "into_matrix" if !swapped => Box::new(Tensor::from(tshape, data).into_matrix()),
+                                "matrix_from" if !swapped => {
+                                    let m: Matrix<u64> = Tensor::from(tshape, data).into();
+                                    Box::new(m)
+                                }
+                                // matrix → tensor conversion, then the wrapper
+                                "from_matrix" if !swapped => Box::new(MatrixRefTensor::from(
+                                    Matrix::from_flat_row_major((l1, l2), data)
+                                        .into_tensor(tshape[0].0, tshape[1].0)
+                                        .expect("distinct names"),
+                                )),
+                                "index_by" if swapped => Box::new(MatrixRefTensor::from(
+                                    Tensor::from(tshape, data).index_by_owned([tshape[1].0, tshape[0].0]),
+                                )),
+                                _ => make_leaf(LeafKind::Tensor(tshape, swapped), (0, 0), data),
+                            }
+                        });
+                        return answer(res, |m| {
+                            let s = format!("ok size={}x{}", m.view_rows(), m.view_columns());
+                            self.cur = Some(Cur::Mut(m));
+                            s
+                        });
+                    }
                     let (r, c): (usize, usize) = (toks[2].parse().unwrap(), toks[3].parse().unwrap());
                     self.leaf = (r, c);
+                    let data = fill_data(&self.fill, r * c);
                     if toks[1] == "matrix" {
                         self.leaf_kind = LeafKind::RowMajor;
-                        self.cur = Some(Cur::Leaf(Matrix::from_flat_row_major((r, c), ids(r * c))));
+                        self.cur = Some(Cur::Leaf(Matrix::from_flat_row_major((r, c), data)));
                     } else {
-                        self.leaf_kind = LeafKind::ColumnMajor;
-                        self.cur = Some(Cur::Mut(cm_leaf((r, c), ids(r * c))));
+                        self.leaf_kind = LeafKind::Tensor([("c", c), ("r", r)], true);
+                        self.cur = Some(Cur::Mut(cm_leaf((r, c), data)));
                     }
                     format!("ok size={}x{}", r, c)
                 }
@@ -791,7 +859,14 @@ impl Runner {
                 let op = match toks[0] {
                     "mrange" => Op::Range(parse_range_pair(toks[1]), parse_range_pair(toks[2]), via),
                     "mreverse" => Op::Reverse(toks[1] == "1", toks[2] == "1", via),
-                    _ => Op::Roundtrip,
+                    _ => {
+                        let names: Vec<&str> = toks[1..].iter().copied().filter(|t| !t.starts_with("via=")).collect();
+                        if names.len() >= 2 {
+                            Op::Roundtrip(Some((intern(names[0]), intern(names[1]))))
+                        } else {
+                            Op::Roundtrip(None)
+                        }
+                    }
                 };
                 let cur = match self.cur.take() {
                     Some(c) => c,
@@ -808,7 +883,7 @@ impl Runner {
                     Ok(Err(e)) => {
                         // the refused source was consumed by the attempt: rebuild the view
                         let n = self.leaf.0 * self.leaf.1;
-                        let rebuilt = build(make_leaf(self.leaf_kind, self.leaf, ids(n)), &self.ops);
+                        let rebuilt = build(make_leaf(self.leaf_kind, self.leaf, fill_data(&self.fill, n)), &self.ops);
                         self.cur = Some(if was_ref { Cur::Ref(Box::new(rebuilt)) } else { Cur::Mut(rebuilt) });
                         e
                     }
@@ -955,12 +1030,14 @@ impl Runner {
                     let (rows, cols) = with_cur_ref!(w, m => (m.view_rows(), m.view_columns()));
                     let leaf = self.leaf;
                     let kind = self.leaf_kind;
+                    let fill = self.fill.clone();
                     let ops = self.ops.clone();
                     let res = catch(|| -> Vec<u64> {
                         match via.as_str() {
                             "display" => {
                                 // Display of a RecordMatrix goes through MatrixMap
-                                let data: Vec<(f64, usize)> = (0..leaf.0 * leaf.1).map(|i| (i as f64, 0usize)).collect();
+                                let data: Vec<(f64, usize)> =
+                                    fill_data(&fill, leaf.0 * leaf.1).into_iter().map(|x| (x as f64, 0usize)).collect();
                                 let v = build(make_leaf(kind, leaf, data), &ops);
                                 let rm: RecordMatrix<f64, _> = RecordMatrix::from_existing(None, MatrixView::from(v));
                                 let text = format!("{}", rm);
@@ -995,10 +1072,11 @@ impl Runner {
                 let n = self.leaf.0 * self.leaf.1;
                 // the leaf is leaked for the life of the view and read back afterwards
                 let mptr: *mut Matrix<u64> = std::ptr::null_mut();
+                let before = fill_data(&self.fill, n);
                 let (leaf, read_back): (MDyn, Box<dyn FnOnce() -> Vec<u64>>) = match self.leaf_kind {
                     LeafKind::RowMajor => {
                         let ptr: *mut Matrix<u64> =
-                            Box::into_raw(Box::new(Matrix::from_flat_row_major(self.leaf, ids(n))));
+                            Box::into_raw(Box::new(Matrix::from_flat_row_major(self.leaf, before.clone())));
                         let leaf: MDyn = Box::new(unsafe { &mut *ptr });
                         (leaf, Box::new(move || {
                             let v: Vec<u64> = unsafe { (*ptr).row_major_iter().collect() };
@@ -1006,11 +1084,14 @@ impl Runner {
                             v
                         }))
                     }
-                    LeafKind::ColumnMajor => {
-                        let ptr: *mut Tensor<u64, 2> =
-                            Box::into_raw(Box::new(Tensor::from([("c", self.leaf.1), ("r", self.leaf.0)], ids(n))));
+                    LeafKind::Tensor(shape, swapped) => {
+                        let ptr: *mut Tensor<u64, 2> = Box::into_raw(Box::new(Tensor::from(shape, before.clone())));
                         let t: &'static mut Tensor<u64, 2> = unsafe { &mut *ptr };
-                        let leaf: MDyn = Box::new(MatrixRefTensor::from(TensorAccess::from(t, ["r", "c"])));
+                        let leaf: MDyn = if swapped {
+                            Box::new(MatrixRefTensor::from(TensorAccess::from(t, [shape[1].0, shape[0].0])))
+                        } else {
+                            Box::new(MatrixRefTensor::from(t))
+                        };
                         (leaf, Box::new(move || {
                             let v: Vec<u64> = unsafe { (*ptr).iter().collect() };
                             unsafe { drop(Box::from_raw(ptr)) };
@@ -1020,6 +1101,8 @@ impl Runner {
                 };
                 let _ = mptr;
                 let ops = self.ops.clone();
+                // `map_mut` singles its cell out by value: only with pairwise distinct elements
+                let via = if via == "map_mut" && self.fill != "id" { "mut".to_string() } else { via };
                 let res = catch(move || {
                     let mut v = build(leaf, &ops);
                     let inside = r < v.view_rows() && c < v.view_columns();
@@ -1055,7 +1138,7 @@ impl Runner {
                 });
                 // the view is gone (dropped or unwound): read the leaf back and free it
                 let after = read_back();
-                answer(res, |_| changed(&ids(n), &after))
+                answer(res, |_| changed(&before, &after))
             }
             "partget" => {
                 let k: usize = toks[1].parse().unwrap();
@@ -1765,7 +1848,95 @@ fn gen_large(g: &mut Gen) {
     }
 }
 
+
+/// name pairs that would matter to code treating dimension names other than as opaque labels
+fn name_pairs(g: &mut Gen) -> Vec<(String, String)> {
+    let mut v: Vec<(&str, &str)> = vec![
+        ("column", "row"), ("row", "column"), ("x", "row"), ("column", "y"), ("rows", "columns"),
+        ("columns", "rows"), (EMPTY_NAME, "row"), ("column", EMPTY_NAME), ("r", "c"), ("c", "r"),
+        ("row", "rows"), ("i", "j"), ("samples", "features"), ("features", "samples"),
+    ];
+    let mut out: Vec<(String, String)> = v.drain(..).map(|(a, b)| (a.to_string(), b.to_string())).collect();
+    for _ in 0..6 {
+        let n = adversarial_names(&mut g.rng, 2);
+        out.push((n[0].to_string(), n[1].to_string()));
+    }
+    out
+}
+
+/// "Adversarial names": every tensor→matrix and matrix→tensor wrapper and conversion with the
+/// library's own interop names ("row", "column", …), prefixes of one another, the empty name,
+/// in unconventional positions, on non-square sizes so that a swap is visible.
+fn gen_adversarial_names(g: &mut Gen) {
+    let sizes = [(2usize, 3usize), (3, 2), (1, 4), (3, 5)];
+    let pairs = name_pairs(g);
+    for (k, (n1, n2)) in pairs.iter().enumerate() {
+        let (l1, l2) = sizes[k % sizes.len()];
+        // a tensor with these names seen as a matrix: directly, through the conversions, and
+        // through a TensorAccess in the swapped order
+        for (order, vias) in [("direct", &["ref_tensor", "into_matrix", "matrix_from", "from_matrix"][..]), ("swapped", &["ref_tensor", "index_by"][..])] {
+            for via in vias {
+                g.op(format!("@ tmatrix {}:{},{}:{} order={} via={}", n1, l1, n2, l2, order, via));
+                g.count(&format!("names.tmatrix.{}.{}", order, via));
+                let (rows, cols) = if order == "direct" { (l1, l2) } else { (l2, l1) };
+                gen_queries(g, rows, cols, "names.tmatrix", true);
+                if k % 3 == 0 {
+                    g.op("mreverse 1 0".to_string());
+                    g.op(format!("mrange 0:{} 1:{}", MAX, MAX));
+                    gen_queries(g, rows, cols - 1, "names.nested", false);
+                }
+            }
+        }
+        // matrix → tensor → matrix with these names, over a matrix and over a view of it
+        for leaf in ["matrix", "cmatrix"] {
+            g.op(format!("@ {} {} {}", leaf, l1, l2));
+            g.op(format!("roundtrip {} {}", n1, n2));
+            g.count("names.roundtrip");
+            gen_queries(g, l1, l2, "names.roundtrip", true);
+            g.op(format!("mreverse 0 1"));
+            g.op(format!("roundtrip {} {}", n2, n1));
+            gen_queries(g, l1, l2, "names.roundtrip2", false);
+            // equal names are refused, the view stays usable
+            g.op(format!("roundtrip {} {}", n1, n1));
+            g.count("names.roundtrip.equal_names");
+            gen_queries(g, l1, l2, "names.after_refusal", false);
+        }
+    }
+}
+
+/// "Degenerate data": the cells hold equal values (all 0, all 7, alternating 0/1), so that code
+/// keyed on element equality shows in `eq`, the scans and write-then-scan.
+fn gen_degenerate_data(g: &mut Gen) {
+    for fill in ["zero", "const", "parity"] {
+        for (rows, cols) in [(1usize, 1usize), (2, 3), (3, 3), (4, 2), (9, 8)] {
+            for leaf in ["matrix", "cmatrix", "tmatrix"] {
+                let start = |g: &mut Gen| {
+                    if leaf == "tmatrix" {
+                        g.op(format!("@ tmatrix column:{},row:{} order=direct via=ref_tensor fill={}", rows, cols, fill));
+                    } else {
+                        g.op(format!("@ {} {} {} fill={}", leaf, rows, cols, fill));
+                    }
+                };
+                start(g);
+                g.count(&format!("degenerate.{}", fill));
+                gen_queries(g, rows, cols, "degenerate", rows * cols <= 12);
+                start(g);
+                let via = *g.rng.pick(&REVERSE_VIAS);
+                g.op(format!("mreverse 1 1 via={}", via));
+                g.op(format!("roundtrip column row"));
+                gen_queries(g, rows, cols, "degenerate.nested", rows * cols <= 12);
+                if rows > 1 {
+                    g.op(format!("mrange 1:{} 0:{}", MAX, cols));
+                    gen_queries(g, rows - 1, cols, "degenerate.range", false);
+                }
+            }
+        }
+    }
+}
+
 pub fn gen(g: &mut Gen) {
+    gen_adversarial_names(g);
+    gen_degenerate_data(g);
     gen_large(g);
     gen_live(g);
     gen_ranges(g);
